@@ -24,6 +24,11 @@ func init() {
 	gen.RegisterOp("c14", "rt", func(_ *gen.Ctx, raw json.RawMessage) any {
 		return c14RoundTrip(gen.Into[c14RTIn](raw))
 	})
+	areas["c14facts"] = runC14Facts
+	gen.RegisterOp("c14", "big", func(_ *gen.Ctx, raw json.RawMessage) any {
+		in := gen.Into[c14BigIn](raw)
+		return tracer.VerifBigSession(in.Path, in.Side, in.Client, in.Req.VerifBigSide, in.Resp.VerifBigSide)
+	})
 }
 
 // c14Side describes the headers and the scripted body of one direction.
@@ -406,6 +411,37 @@ func c14Proto(in *c14TraceIn, ct, enc, decoy string) {
 	}
 }
 
+// c14ArrayViols counts the sessions in which the scripted caller itself (Go side) found its array
+// modified.  Such a tracer usually also mis-parses what it kept (it reads canaries as envelope
+// prefixes, and pre-allocates the gigabytes they declare): once the violation is established
+// many times over, the generator stops instead of grinding through every remaining session.
+var c14ArrayViols int
+
+const c14ArrayViolLimit = 40
+
+// c14Do runs one session unless the generator has given up (see c14ArrayViols).
+func c14Do(c *gen.Ctx, op string, in any) {
+	if c14ArrayViols >= c14ArrayViolLimit {
+		c.E.Count("skipped:caller-array-violation-established")
+		return
+	}
+	viol := ""
+	switch out := c.Do(op, in).(type) {
+	case c14TraceOut:
+		viol = out.BufViol
+	case c14HandlerOut:
+		viol = out.Traced.BufViol
+	case c14RTOut:
+		viol = out.BufViol
+	case tracer.VerifBigOut:
+		viol = out.Req.Array + out.Resp.Array
+	}
+	if viol != "" {
+		c14ArrayViols++
+		c.E.Count("caller-array-violation")
+	}
+}
+
 func runC14(c *gen.Ctx) error {
 	r := c.R
 	e := c.E
@@ -433,7 +469,7 @@ func runC14(c *gen.Ctx) error {
 						} else if seq%11 == 0 {
 							in.Post = []string{"r", "c", "c"}
 						}
-						c.Do("trace", in)
+						c14Do(c, "trace", in)
 						e.Count("exhaustive-chunkings")
 					}
 				}
@@ -494,10 +530,12 @@ func runC14(c *gen.Ctx) error {
 			in2.Reads = c14RandChunks(r, body[:k])
 			in2.Ending = gen.Pick(r, c14Endings)
 			in2.Post = c14RandPost(r)
-			c.Do("trace", in2)
+			c14Do(c, "trace", in2)
 			e.Count("random")
 		}
 	}
+	// (f) bodies of 4 GiB and more (never written down: the same zeroed array again and again)
+	c14BigCases(c)
 	// (e) the middleware wiring: real TracingHandler (tracingResponseWriter) and TracingRoundTripper
 	nMid := 2500
 	if c.Thorough() {
@@ -505,8 +543,8 @@ func runC14(c *gen.Ctx) error {
 	}
 	for i := 0; i < nMid; i++ {
 		rt, h := c14RandMiddleware(c)
-		c.Do("handler", h)
-		c.Do("rt", rt)
+		c14Do(c, "handler", h)
+		c14Do(c, "rt", rt)
 	}
 	return nil
 }
